@@ -306,8 +306,4 @@ def replay(ctx, data):
             print("raises", repr(exc))
             return False
         check_output(ctx, label, its, ots, node_mv, mut_mv, sm, tap.events, case)
-    for sig, detail, _r in ctx.oracle_fails:
-        print("property fails:", sig, detail)
-    for f, sig in ctx.known_hits:
-        print("property fails (known finding %s):" % f.get("id"), sig)
-    return len(ctx.oracle_fails) + len(ctx.known_hits) == before
+    return G.replay_verdict(ctx)
